@@ -101,3 +101,14 @@ package metadata
 
 //@ func TypeUsageMeta.IsUniverseType props C10,C14
 //@ ensures result == gast.universeType(m.Name)
+
+// ---- reduction of a controller (C01: name, tag, route prefix and description are those annotated; C13) ----
+// assumed frame: reducing a receiver fills the metadata cache and the serial provider only
+//@ func ReceiverMeta.Reduce trusted
+//@ modifies any(caching.MetadataCache), any(providers.SyncedProvider)
+//@ func ControllerMeta.Reduce props C01,C13,C14
+//@ requires m.Struct.Annotations != nil
+//@ modifies any(caching.MetadataCache), any(providers.SyncedProvider)
+//@ ensures id: implies(result1 == nil, result0.Name == m.Struct.Name && result0.PkgPath == m.Struct.PkgPath && len(result0.Routes) == len(m.Receivers))
+//@ ensures prefix: implies(result1 == nil, implies(!annotations.hasAttr(*m.Struct.Annotations, "Route"), result0.RestMetadata.Path == "") && forall(k, 0, len(m.Struct.Annotations.attributes), implies(annotations.isFirst(*m.Struct.Annotations, "Route", k), result0.RestMetadata.Path == m.Struct.Annotations.attributes[k].Value)))
+//@ loop 0 invariant 0 <= _n && _n <= len(m.Receivers) && len(reducedReceivers) == _n && fresh(reducedReceivers)
